@@ -192,10 +192,16 @@ static void c10_text(const std::string& text, const ref::Value& rv, const std::v
 }
 
 // ---------------------------------------------------------------- C11
-static void c11_call(const uint8_t* data, size_t n, const JsonPointer& jp, const std::string& text, const char* place, vr::Ctx& ctx, bool also_doc) {
+struct C11Res {
+  int err;
+  size_t off, sbeg, slen;
+  bool operator==(const C11Res& o) const { return err == o.err && (err != 0 || (off == o.off && sbeg == o.sbeg && slen == o.slen)); }
+};
+static C11Res c11_call(const uint8_t* data, size_t n, const JsonPointer& jp, const std::string& text, const char* place, vr::Ctx& ctx, bool also_doc) {
   StringView json((const char*)data, n);
   StringView target("garbage-before-call");
   ParseResult res = GetOnDemand(json, jp, target);
+  C11Res out{(int)res.Error(), res.Offset(), res.Error() == kErrorNone ? (size_t)(target.data() - (const char*)data) : 0, target.size()};
   ctx.eval();
   const char* lo = (const char*)data;
   const char* hi = lo + n;
@@ -212,6 +218,29 @@ static void c11_call(const uint8_t* data, size_t n, const JsonPointer& jp, const
     Document od;
     od.ParseOnDemand((const char*)data, n, jp);
     if (od.HasParseError() && !od.IsNull()) ctx.violation("ondemand_doc_not_null", "ondemand_doc_not_null", text, "[%s] ParseOnDemand failed (code %d) but document not null", place, (int)od.GetParseError());
+  }
+  return out;
+}
+// The input as a VIEW into a longer readable buffer (a prefix of a larger document, a field of a message): the bytes
+// that follow it - quotes, closers, openers, backslashes, digits - are not input; the outcome must be the one obtained
+// when nothing readable follows, and must stay inside the view.
+static const char* kTails[4] = {"\"\"\"\"\"\"\"\"\"\"\"\"\"\"\"\"\"\"\"\"\"\"\"\"\"\"\"\"\"\"\"\"\"\"\"\"\"\"\"\"\"\"\"\"\"\"\"\"\"\"\"\"\"\"\"\"\"\"\"\"\"\"\"\"\"\"\"\"\"\"\"\"",
+                                "2]}]}\"2,3]}]}]}\"2]}]}\"2,3]}]}]}\"2]}]}\"2,3]}]}]}\"2]}]}\"2,3]}]}]}\"2]}]}\"2,3]}",
+                                "\\\\\\\\\\\\\\\\\\\\\\\\\\\\\\\\\\\\\\\\\\\\\\\\\\\\\\\\\\\\\\\\\\\\\\\\\\\\\\\\\\\\\\\\\\\\\\\\\\\\\\\\",
+                                "[{\"a\":[{\"a\":[{\"a\":[{\"a\":[{\"a\":[{\"a\":[{\"a\":[{\"a\":[{\"a\":[{\"a\":[{\"a\":[{\"a\":"};
+static void c11_views(const std::string& text, const JsonPointer& jp, size_t pi, const C11Res& alone, uint8_t* scratch, vr::Ctx& ctx) {
+  // tails 0,1 (quotes; closers and digits) for every 4th path, tails 2,3 (backslashes; openers) for every 16th
+  for (int t = 0; t < 4; t++) {
+    if (t < 2 ? pi % 4 != 0 : pi % 16 != 1) continue;
+    const size_t tl = std::strlen(kTails[t]);
+    std::memcpy(scratch, text.data(), text.size());
+    std::memcpy(scratch + text.size(), kTails[t], tl);
+    char place[32];
+    snprintf(place, sizeof place, "view+tail%d", t);
+    C11Res r = c11_call(scratch, text.size(), jp, text, place, ctx, false);
+    if (!(r == alone))
+      ctx.violation("tail_influence", "ondemand_tail_influence", text, "[%s] outcome depends on the bytes BEHIND the input: error %d offset %zu slice [%zu,+%zu) with the tail, error %d offset %zu slice [%zu,+%zu) without", place, r.err,
+                    r.off, r.sbeg, r.slen, alone.err, alone.off, alone.sbeg, alone.slen);
   }
 }
 
@@ -817,11 +846,19 @@ int main(int argc, char** argv) {
       if (text.size() >= 2) ctx.nontriv();
 #if HAVE_ASAN
       ExactBuf b(text);
-      for (size_t pi = 0; pi < jps.size(); pi++) c11_call((const uint8_t*)b.p, b.n, jps[pi], text, "exact-heap", ctx, pi < 11);
+      std::vector<uint8_t> scratch(text.size() + 256);
+      for (size_t pi = 0; pi < jps.size(); pi++) {
+        C11Res alone = c11_call((const uint8_t*)b.p, b.n, jps[pi], text, "exact-heap", ctx, pi < 11);
+        c11_views(text, jps[pi], pi, alone, scratch.data(), ctx);
+      }
 #else
       if (text.size() > 2 * Guarded::PG) return;
       const uint8_t* pe = guard.at_end(text);
-      for (size_t pi = 0; pi < jps.size(); pi++) c11_call(pe, text.size(), jps[pi], text, "page-end", ctx, pi < 11);
+      std::vector<uint8_t> scratch(text.size() + 256);
+      for (size_t pi = 0; pi < jps.size(); pi++) {
+        C11Res alone = c11_call(pe, text.size(), jps[pi], text, "page-end", ctx, pi < 11);
+        c11_views(text, jps[pi], pi, alone, scratch.data(), ctx);
+      }
       const uint8_t* ps = guard.at_start(text);
       for (size_t pi = 0; pi < jps.size(); pi++) c11_call(ps, text.size(), jps[pi], text, "page-start", ctx, false);
 #endif
